@@ -389,7 +389,7 @@ def sha_files(paths):
     return h.hexdigest()[:16]
 
 
-def prune_gen(keep=4):
+def prune_gen(keep=40):
     if not os.path.isdir(GEN):
         return
     ds = sorted((os.path.getmtime(os.path.join(GEN, d)), d) for d in os.listdir(GEN))
